@@ -220,3 +220,96 @@ def div(prog, scope, floor, accepted=None, ctx=None):
                           '`%s`: the divisor `%s` is not proven non-zero (no dominating test, range, field invariant, caller '
                           'argument or table argument applies): division by zero kills the process with SIGFPE' % (txt, show(d)[:30])))
     return RuleResult('R-DIV', obs, floor, {})
+
+
+def div_ovf(prog, scope, floor=3):
+    """DIV-OVF: a signed division or remainder whose divisor is not a constant cannot be MIN / -1 (the one quotient that
+    does not fit: x86 raises SIGFPE for it exactly as for a zero divisor, also for %).  Discharged when the divisor's range
+    excludes -1 (parameters of file-local helpers take the constants of their call sites), when the dividend's range
+    excludes the type's minimum, or when a test `divisor == -1` with an arm that leaves dominates the division."""
+    from nk.cfg import dominators
+    from nk.interval import FnIntervals, Analyzer, join
+    from rules.pagebase import _param_ranges
+    an = Analyzer(prog)
+    callers = {}
+    for fn in prog.fns.values():
+        if not fn.blocks:
+            continue
+        for c in fn.calls():
+            if c.get('ck'):
+                callers.setdefault(c['ck'], []).append((fn, c))
+    obs = []
+    for fn in sorted(prog.functions(scope), key=lambda f: (f.file, f.line)):
+        if not fn.blocks:
+            continue
+        fa = None
+        dom = None
+        k = 0
+        for n in sorted(fn.nodes.values(), key=lambda x: x['i']):
+            if n['k'] not in ('BinaryOperator', 'CompoundAssignOperator') or n.get('op') not in ('/', '%', '/=', '%='):
+                continue
+            if const(kids(n)[1]) is not None:
+                continue
+            tr = type_range(fn.type(n))
+            if tr == TOP or tr[0] >= 0:
+                continue
+            w = fn.where.get(n['i'])
+            if w is None:
+                continue
+            if fa is None:
+                # parameters start from the join of the argument ranges at all call sites of the program
+                pr = {}
+                sites = callers.get(fn.key, [])
+                for (g, c) in sites:
+                    ga = an._fa_cache(g)
+                    for p_, a in zip(fn.params(), call_args(c)):
+                        if type_range(fn.types[p_['t']] if isinstance(p_.get('t'), int) else '') == TOP:
+                            continue
+                        iv = ga.eval_at(a, c)
+                        pr[p_['d']] = iv if p_['d'] not in pr else join(pr[p_['d']], iv)
+                pr = {d: v for d, v in pr.items() if v[0] is not None and v[1] is not None} if sites else {}
+                fa = FnIntervals(an, fn, param_init=pr) if pr else an._fa_cache(fn)
+            if w[0] not in fa.reached:
+                continue
+            k += 1
+            dv = fa.eval_at(kids(n)[1], n)
+            nv = fa.eval_at(kids(n)[0], n)
+            construct = '%s#%d' % (n['op'].rstrip('='), k)
+            why = None
+            if dv[0] is not None and dv[1] is not None and (dv[0] > -1 or dv[1] < -1):
+                why = 'divisor in %s: never -1' % (dv,)
+            elif nv[0] is not None and nv[0] > tr[0]:
+                why = 'dividend in %s: never the minimum of its type' % (nv,)
+            else:
+                if dom is None:
+                    dom = dominators(fn)
+                dtxt = show(strip(kids(n)[1], casts=True))
+                reach = None
+                for b in dom[w[0]]:
+                    cn = fn.nodes.get(fn.blocks[b].get('cond')) if 'cond' in fn.blocks[b] else None
+                    if cn is None:
+                        continue
+                    c_ = strip(cn)
+                    if c_['k'] == 'BinaryOperator' and c_.get('op') in ('==', '!=') and const(kids(c_)[1]) == -1 and \
+                            show(strip(kids(c_)[0], casts=True)) == dtxt:
+                        # the edge taken when divisor == -1 must not reach the division
+                        idx = 0 if c_['op'] == '==' else 1
+                        tgt = fn.blocks[b]['s'][idx] if len(fn.blocks[b]['s']) == 2 else None
+                        if tgt is not None:
+                            seen = set()
+                            st = [tgt]
+                            while st:
+                                x = st.pop()
+                                if x in seen or x is None:
+                                    continue
+                                seen.add(x)
+                                st.extend(fn.succs(x))
+                            if w[0] not in seen:
+                                why = '`%s` is handled before the division (line %d)' % (show(c_), cn['l'])
+            obs.append(Ob('DIV-OVF', fn.file, n['l'], fn.q, construct, DISCHARGED if why else VIOLATED,
+                          '' if why else '`%s` is a signed division with divisor range %s and dividend range %s: the minimum of the type '
+                          'divided by -1 does not fit and raises SIGFPE (also for %%), like a division by zero' % (show(n)[:50], dv, nv),
+                          why or ''))
+    if len(obs) < floor:
+        raise AnalysisBroken('DIV-OVF: only %d signed divisions by a variable in scope' % len(obs))
+    return RuleResult('DIV-OVF', obs, floor, {})
